@@ -1,6 +1,7 @@
 package wasmext
 
 import (
+	"github.com/NibiruChain/nibiru/v2/app/ante"
 	"github.com/NibiruChain/nibiru/v2/x/evm"
 
 	"cosmossdk.io/errors"
@@ -52,6 +53,13 @@ func (h SDKMessageHandler) handleSdkMessage(ctx sdk.Context, contractAddr sdk.Ad
 	msgTypeUrl := sdk.MsgTypeURL(msg)
 	if msgTypeUrl == sdk.MsgTypeURL(new(evm.MsgEthereumTx)) {
 		return nil, errors.Wrap(sdkerrors.ErrUnauthorized, "Wasm VM to EVM call pattern is not yet supported")
+	}
+
+	// Messages dispatched by a contract never pass through the ante handler:
+	// enforce the validator commission cap here as well (also for staking
+	// messages nested inside authz MsgExec).
+	if err := ante.CheckStakingCommission([]sdk.Msg{msg}); err != nil {
+		return nil, err
 	}
 
 	// find the handler and execute it
